@@ -336,3 +336,16 @@ func ReplayFile(path string) int {
 }
 
 var CustomReplays = map[string]func(Replay, string) int{}
+
+// isSchedulerReplay reports whether a replay file needs the access-hook or -race build.
+func isSchedulerReplay(path string) bool {
+	b, err := os.ReadFile(path)
+	if err != nil {
+		return false
+	}
+	var r Replay
+	if json.Unmarshal(b, &r) != nil {
+		return false
+	}
+	return strings.HasPrefix(r.Engine, "conc-") || r.Engine == "race"
+}
